@@ -225,6 +225,28 @@ def endScenario (s : St) : IO Unit :=
   if s.active then IO.println s!"END {s.sc} labels={s.labels} status={if s.rejected || s.diverged then "rejected" else "ok"} rest={b01 s.rested}"
   else pure ()
 
+/-- the model keeps its tables as functions (total maps); every update wraps the previous function, so a lookup would cost
+    as much as the history is long.  The driver re-tabulates them after every label (same function, constant-time lookup;
+    indices outside the allocated ranges fall through to the old function). -/
+def compact (w : World) : World :=
+  let evs := (Array.range w.ne).map w.ev
+  let insts := (Array.range w.ni).map w.inst
+  let buses := (Array.range w.nb).map w.bus
+  let actR := (Array.range w.nb).map fun b => w.act (.rl b)
+  let actI := (Array.range w.ni).map fun i => w.act (.inst i)
+  let actX := w.act .ext
+  let waits := (Array.range w.nx).map w.waiter
+  let oldEv := w.ev; let oldInst := w.inst; let oldBus := w.bus; let oldAct := w.act; let oldW := w.waiter
+  { w with
+    ev := fun e => if h : e < evs.size then evs[e] else oldEv e
+    inst := fun i => if h : i < insts.size then insts[i] else oldInst i
+    bus := fun b => if h : b < buses.size then buses[b] else oldBus b
+    act := fun p => match p with
+      | .rl b => if h : b < actR.size then actR[b] else oldAct p
+      | .inst i => if h : i < actI.size then actI[i] else oldAct p
+      | .ext => actX
+    waiter := fun x => if h : x < waits.size then waits[x] else oldW x }
+
 /-- apply one label (after any silent labels it needs) -/
 def doLabel (s : St) (l : Label) (raw : String) : IO St := do
   -- silent labels inserted on demand: empty iterations of the inline polling loop before a give-up
@@ -254,14 +276,14 @@ def doLabel (s : St) (l : Label) (raw : String) : IO St := do
           bump (if w'.stack.length ≥ 3 then bump cov "chain.serial.depth>=3" else cov) "chain.serial.depth>=2"
         else cov
       | _ => cov
-    return { s with w := w', m := m', labels := s.labels + 1, cov := cov }
+    return { s with w := compact w', m := m', labels := s.labels + 1, cov := cov }
   else
     IO.println s!"REJ {s.sc} {s.line} {(checks w l).why} || {raw}"
     -- degraded mode: follow the real history anyway (the effect of the label is applied without its guard)
     let w' := apply w l
     let (m', vs) := s.m.step w l w'
     printVios (s.sc ++ "~") s.line vs
-    return { s with w := w', m := m', diverged := true, labels := s.labels + 1 }
+    return { s with w := compact w', m := m', diverged := true, labels := s.labels + 1 }
 
 partial def loop (h : IO.FS.Stream) (s : St) : IO Unit := do
   let line ← h.getLine
